@@ -19,7 +19,7 @@ from vmon.util import derive_rng
 
 LEVEL = "exploration"
 MANIFEST = {
-    "text": "Exhaustive enumeration of the (n_in, n_out, max_branch, method) grid inside the tier bound (quick 1..6, thorough 1..9 plus wider cells) on the real shuffle code; every cell judged by an exactly-once oracle over unique row ids, a key->partition function oracle, cross-frame (int/float/categorical) consistency, partition-subset equality and pandas-checked consumers. Held = held on the executions observed.",
+    "text": "Exhaustive enumeration of the (n_in, n_out, max_branch, method) grid inside the tier bound (quick 1..6, thorough 1..9 plus wider cells) on the real shuffle code; every cell judged by an exactly-once oracle over unique row ids, a key->partition function oracle, cross-frame (int/float/categorical) consistency, partition-subset equality and pandas-checked consumers. Held = held on the executions observed. The index as key (by name and by on_index), int labels in one frame and float labels in the other, and the consuming join are included.",
     "note": "Trusts pandas (merge/groupby reference), dask's local scheduler, our comparator. p2p shuffle (needs distributed) is out of reach. Rows with NaN keys are only judged for exactly-once.",
     "technique": "runtime monitoring: exhaustive bounded workload grid + offline exactly-once / co-location oracle over recorded shuffle outputs; graph-key monitor proves staged / repartition / disk routes were really taken",
     "design_ref": "DESIGN.md section 4, C12",
